@@ -19,7 +19,7 @@ RULE = ("cases = generated 3D plotfiles with properly nested levels on even bloc
 ASSUMPTIONS = ["float reassociation only: tolerance 1e-10 * sum of |terms| (one lost or doubled cell "
                "is >= 1e-4 of that)", "pool shim M1 with shuffled schedules",
                "blocking factor even (statement's own restriction)"]
-REQUIRED_OBS = {"integrals": 100, "mixed_tilings": 2, "mixed_fine_level_tilings": 2, "cli_runs": 30, "calls:compute_box_array": 30,
+REQUIRED_OBS = {"integrals": 100, "mixed_tilings": 2, "mixed_fine_level_tilings": 2, "uniform_boxes_offset_patches": 1, "cli_runs": 30, "calls:compute_box_array": 30,
                 "limited": 30, "volfrac": 30}
 TIMEOUT = {"quick": 600, "thorough": 3000}
 
@@ -33,10 +33,16 @@ def cases(tier, seed):
         if i % 3 == 0:
             s = rng.choice([[4, 6], [4, 6], [8, 12], [16, 24] if tier == "thorough" else [8, 12]])
             g.update(sizes=s, nlevels=2 + (i // 3) % 2, uneven=True, free_regions=(i % 2 == 0))
+
             if s[0] >= 8:
                 g["nlevels"] = min(g["nlevels"], 2)
             g["base"] = [s[0] + s[1], rng.choice([s[0], s[1], s[0] + s[1]]), rng.choice([s[0], s[1]])]
             rng.shuffle(g["base"])
+            if (i // 3) % 3 == 2:
+                # uniform box size on a smaller blocking factor: every box has the same shape but the
+                # refined patches start at odd multiples of the blocking factor
+                g.update(sizes=[s[0]], free_regions=True, region_unit=s[0] // 2)
+                g["base"] = [2 * s[0], rng.choice([s[0], 2 * s[0]]), 2 * s[0]]
         else:
             bf = rng.choice([2, 4, 8])
             g.update(bf=bf, nlevels=1 + i % 4, base_blocks=(1, 2) if bf == 8 else (1, 3) if bf == 4 else (2, 4))
@@ -87,6 +93,9 @@ def run_case(case, work, rec):
     ext = min(min(b.shape) for lv in m.boxes for b in lv)
     if any(v % ext for lv in m.boxes[1:] for b in lv for v in list(b.lo) + [h + 1 for h in b.hi]):
         rec.count("mixed_fine_level_tilings")     # where the occupancy map of a masking level is at stake
+    shapes = {b.shape for lv in m.boxes for b in lv}
+    if len(shapes) == 1 and any(v % min(next(iter(shapes))) for lv in m.boxes[1:] for b in lv for v in b.lo):
+        rec.count("uniform_boxes_offset_patches")
     rec.sample({"plotfile": gen.describe(m), "mixed_box_sizes": mixed})
     finest = m.nlevels - 1
     partial = m.nlevels >= 2 and any((gen.level_map(m, lv + 1) == lv).any() for lv in range(finest))
